@@ -411,6 +411,24 @@ C05_Clauses(cfg, S) ==
 C05_OK(cfg, h) == All(C05_Clauses(cfg, Segs(h)))
 
 (* ---------------------------------------------------------------------- *)
+(* C11 through a flow: batch nodes used as steps of a flow.  The batch     *)
+(* level (FlytBatch / PropsBatch) decides what happens inside one batch;   *)
+(* here the run as a whole: a batch node swallows the cancellation (its    *)
+(* post is still called with the error slots), so it is the flow that must *)
+(* end the run - also when the flow consists of batch nodes only and its   *)
+(* table loops.                                                            *)
+(* ---------------------------------------------------------------------- *)
+C11E_Clauses(cfg, S) ==
+  LET c5 == C05_Clauses(cfg, S) IN
+  [ \* the run terminates (a run that had to be stopped by the harness has no return event)
+    flowTerminates  |-> \A j \in 1..Len(S) : HasRet(S[j]),
+    \* after the cancellation no further batch (no prep) and no further item attempt starts
+    flowNoNewWork   |-> c5.noNewWork,
+    \* a cancelled run returns the context's error, or ran its whole path
+    flowCtxErr      |-> c5.ctxErr /\ c5.noFakeSuccess ]
+C11E_OK(cfg, h) == All(C11E_Clauses(cfg, Segs(h)))
+
+(* ---------------------------------------------------------------------- *)
 (* C10  a flow used as a node                                             *)
 (* ---------------------------------------------------------------------- *)
 C10_Clauses(cfg, S) ==
